@@ -141,7 +141,7 @@ var structuredLeaves = []leafSpec{
 
 var leafClassOf = func() map[string]string {
 	m := map[string]string{}
-	for _, l := range append(append([]leafSpec{}, leafCatalog...), structuredLeaves...) {
+	for _, l := range append(append(append([]leafSpec{}, leafCatalog...), structuredLeaves...), flagValueLeaves...) {
 		m[l.expr] = l.class
 	}
 	return m
@@ -196,6 +196,10 @@ func typesProfile(source string, behind bool) shape.Profile {
 	switch source {
 	case "json", "yaml", "toml", "cue", "manglers":
 		cat = append(append([]leafSpec{}, leafCatalog...), structuredLeaves...)
+	case "flag", "pflag":
+		// user leaf types that parse their own flag text (flag.Value without
+		// Get, flag.Getter, pflag.Value)
+		cat = append(append([]leafSpec{}, leafCatalog...), flagValueLeaves...)
 	}
 	for _, l := range cat {
 		if k := keyFor(l, source); behind && k != "" && knownDefect(k) {
